@@ -103,12 +103,60 @@ func partBursts(c *check.Ctx, a *acc) {
 		map[string]any{"engine": "E4 burst", "bursts": done, "sizes": "12..64 failing ENTITY_ADD_REQUESTs from a connection in no session"})
 }
 
+// partStalls: a member stops reading while the session relays to it; idle
+// clients (silent) must be disconnected, active ones must not.
+func partStalls(c *check.Ctx, a *acc) {
+	bin, err := c.WS.Build("lab", "plain")
+	if err != nil {
+		c.Inconc("build failed: " + err.Error())
+		return
+	}
+	type sc struct{ n, size int }
+	scs := []sc{{300, 10000}, {1500, 10000}, {4000, 2000}, {6000, 10000}}
+	if !c.Quick() {
+		scs = append(scs, sc{20000, 10000}, sc{800, 10240}, sc{3000, 100}, sc{12000, 5000})
+	}
+	var mu sync.Mutex
+	done, ended, blocked := 0, 0, 0
+	var samples []any
+	parallel(len(scs), 4, func(i int) {
+		p, err := c.WS.StartLab(bin, sut.LabOpts{Idle: 2 * time.Second, Name: "stall"})
+		if err != nil {
+			c.Inconc(err.Error())
+			return
+		}
+		defer p.Kill()
+		out := e4.StallTrial(p, 2*time.Second, scs[i].n, scs[i].size)
+		mu.Lock()
+		defer mu.Unlock()
+		done++
+		if out.StallerEnded {
+			ended++
+		}
+		if out.SenderBlocked {
+			blocked++
+		}
+		if out.Inconclusive != "" {
+			c.Inconc(out.Inconclusive)
+		}
+		for _, f := range out.Findings {
+			c.Report(f)
+		}
+		samples = append(samples, map[string]any{"engine": "E4 stall", "trial": out.Desc, "relays_towards_staller": out.RelaysTowards, "sender_blocked_meanwhile": out.SenderBlocked, "staller_disconnected": out.StallerEnded})
+	})
+	c.Coverage["stall_trials"] = done
+	c.Coverage["stall_trials_staller_disconnected_by_idle_timeout"] = ended
+	c.Coverage["stall_trials_sender_blocked_while_peer_stalled"] = blocked
+	a.add(done, done, "stalls: a member stops reading while another relays hundreds to thousands of custom messages to the session (beyond socket buffers + send queue); the silent staller must be disconnected by the idle timeout through the normal path, a member of another session must be served throughout, and the session must work again afterwards", samples...)
+}
+
 func init() {
 	registry["C08"] = func(c *check.Ctx) int {
 		c.Level = "fault_enumeration"
 		a := &acc{}
 		partFaults(c, a)
 		partBursts(c, a)
+		partStalls(c, a)
 		return a.finish(c)
 	}
 }
